@@ -82,6 +82,29 @@ func traps() []*Scenario {
 				del(o1, "a.t", "CNAME"), add(o1, "a.t", "CNAME", "b.t"))
 			return sc
 		}(),
+		// arguments the Spec treats as opaque: e-mail shapes, refresh/retry/ttl boundaries, expire 0 and negative,
+		// transfer data shapes to a plain account and to a contract, Buffer arguments, both renew overloads
+		func() *Scenario {
+			ax := func(st Step, a Aux) Step { st.Aux = &a; return st }
+			ml := func(st Step, m string) Step { st.M = m; return st }
+			big := int64(1) << 40
+			sc := &Scenario{CN: 4, Src: "trap:opaqueargs", Steps: []Step{
+				ax(ml(reg(o1, "a.t", "o1", 20), "ops@nspcc.io"), Aux{Refresh: 0, Retry: -1, TTL: big, Data: "null"}),
+				add(o1, "a.t", "TXT", "x"), ax(ml(updSOA(o1, "a.t", "m1", 3), strings.Repeat("m", 255)), Aux{Refresh: big, Retry: 0, TTL: -1}),
+				add(o1, "a.t", "TXT", "y"), ax(ml(reg(o2, "b.t", "o2", 20), ""), Aux{Refresh: 1, Retry: 1, TTL: 1}),
+				add(o2, "b.t", "TXT", "x") /* empty e-mail: the SOA record has 6 fields */, set(o2, "b.t", "TXT", 0, "y"), del(o2, "b.t", "TXT"),
+				ax(ml(updSOA(o2, "b.t", "m1", 3), "a b"), *plainAux()), add(o2, "b.t", "TXT", "x") /* 8 fields */,
+				ax(ml(updSOA(o2, "b.t", "m1", 3), "m2"), *plainAux()), add(o2, "b.t", "TXT", "x"),
+				ax(reg(o3, "a.u", "o3", 0), *plainAux()), regTLD(cmt, "u", 20), ax(reg(o3, "a.u", "o3", 0), *plainAux()) /* expire 0 */,
+				ax(reg(o3, "a.u", "o3", -1), *plainAux()) /* negative expire */, reg(o3, "a.u", "o3", 20)}}
+			for _, d := range []string{"null", "empty", "bytes", "int", "array", "map"} {
+				sc.Steps = append(sc.Steps, ax(xfer(o1, "a.t", "o2"), Aux{Data: d, Buf: d == "bytes" || d == "int"}), ax(xfer(o2, "a.t", "kc"), Aux{Data: d, Buf: d == "map"}),
+					ax(via(xfer(s(), "a.t", "o1")), Aux{Data: d}))
+			}
+			sc.Steps = append(sc.Steps, ax(renew(o1, "a.t", 1), Aux{Ov1: true}), ax(renew(o1, "a.t", 1), Aux{Ov1: false}), ax(renew(o2, "a.t", 1), Aux{Ov1: true}),
+				ax(renew(cmt, "t", 1), Aux{Ov1: true}), set(o1, "a.t", "TXT", 255, "z"), set(o1, "a.t", "TXT", 256, "z"), set(o1, "a.t", "TXT", -1, "z"))
+			return sc
+		}(),
 		// expiry boundary hit exactly (instants exp-1, exp, exp+1), takeover by another owner, renew bounds
 		{CN: 4, Src: "trap:expiry", Steps: []Step{
 			reg(o1, "a.t", "o1", 2) /* at 1, exp 9 */, add(o1, "a.t", "A", "1.1.1.1"), setAdmin(s("o1", "o3"), "a.t", "o3"), tick(3),
@@ -694,6 +717,19 @@ func randScenario(r *rand.Rand) *Scenario {
 			burst()
 		}
 	}
+	mails := []string{"m1", "m2", "m1", "m2", "ops@nspcc.io", "", "a b", strings.Repeat("m", 255)}
+	mail := func(st Step) Step { st.M = pick(mails); return st }
+	expire := func() int64 { // mostly 1..8 units, sometimes 0, negative, or centuries
+		switch r.Intn(16) {
+		case 0:
+			return 0
+		case 1:
+			return -1
+		case 2:
+			return 400
+		}
+		return int64(1 + r.Intn(8))
+	}
 	nsteps := 14 + r.Intn(26)
 	for i := 0; i < nsteps; i++ {
 		if (recMode && r.Intn(3) > 0) || (!recMode && r.Intn(8) == 0) {
@@ -704,9 +740,13 @@ func randScenario(r *rand.Rand) *Scenario {
 		case k < 2:
 			emit(tick(int64(1 + r.Intn(9))))
 		case k < 3:
-			emit(m.sign(r, regTLD(nil, pick([]string{"u", "u", "t"}), int64(1+r.Intn(12)))))
+			emit(m.sign(r, mail(regTLD(nil, pick([]string{"u", "u", "t"}), int64(1+r.Intn(12))))))
 		case k < 10:
-			emit(m.sign(r, reg(nil, name(), pick(accounts), int64(1+r.Intn(8)))))
+			n, x := name(), expire()
+			if x <= 0 && levelOf(n) > 2 {
+				x = 1 // see report: a name of level >= 3 that is expired at once leaves its SOA record under the parent
+			}
+			emit(m.sign(r, mail(reg(nil, n, pick(accounts), x))))
 		case k < 14:
 			emit(m.sign(r, xfer(nil, registered(), pick(accounts))))
 		case k < 16:
@@ -726,7 +766,7 @@ func randScenario(r *rand.Rand) *Scenario {
 			if r.Intn(8) == 0 {
 				n = pick([]string{"t", "u"})
 			}
-			emit(m.sign(r, updSOA(nil, n, pick([]string{"m1", "m2"}), int64(1+r.Intn(5)))))
+			emit(m.sign(r, mail(updSOA(nil, n, "m1", expire()))))
 		case k < 27:
 			ty := pick(types)
 			d := "x"
@@ -740,7 +780,11 @@ func randScenario(r *rand.Rand) *Scenario {
 			if l, ok := data[ty]; ok {
 				d = pick(l)
 			}
-			emit(m.sign(r, set(nil, name(), ty, int64(r.Intn(3)), d)))
+			id := int64(r.Intn(3))
+			if r.Intn(8) == 0 {
+				id = []int64{-1, 15, 16, 255, 256}[r.Intn(5)]
+			}
+			emit(m.sign(r, set(nil, name(), ty, id, d)))
 		default:
 			emit(m.sign(r, del(nil, name(), pick(types))))
 		}
